@@ -28,7 +28,8 @@ func Run(r *core.Run) {
 	}
 	r.Assume("V8 (Node 20) implements ECMAScript on the generated fragment; where JsSem/JsFold and V8 disagree on the INPUT program the case is reported as drift and excluded")
 	r.Assume("finite results of ** and folds whose exact value needs non-integer float arithmetic are judged by V8 only (DESIGN.md section 6)")
-	r.Assume("the probe host (p, o, G, parameters) is the only observable channel: calls with arguments, property traffic on the recorder object, valueOf calls, thrown exception class, completion value")
+	r.Assume("outer-constant family: module bindings, enum members and define keys evaluate to the constant's value; the native reference is the single script `const K = v; function ...`")
+	r.Assume("the probe host (p, o, G, parameters) is the only observable channel: calls with arguments, property traffic on the recorder object, valueOf / toString calls, thrown exception class, completion value")
 	if r.Replay != "" {
 		replayOne(r)
 		r.Set("rule", "replay of one recorded scenario")
@@ -53,7 +54,7 @@ func Run(r *core.Run) {
 	if n := r.DriftCount(); n > 25 {
 		r.Infra("the specification disagrees with V8 on %d input programs/cells: drift exceeds the budget, no verdict", n)
 	}
-	r.Set("rule", "fold: every (operator, a, b) over the 22-value boundary grid in each compile-time-evaluation context; programs: TLC-generated expression trees / statement skeletons with probe leaves x environments; non-trivial = the program matches >= 1 peephole pattern class of JsSem and the minified output differs textually from the unminified print; distinct by (program, options)")
+	r.Set("rule", "fold: every (operator, a, b) over the 22-value boundary grid in each compile-time-evaluation context; programs: TLC-generated expression trees / statement skeletons / context x operand-kind pairs / outer-constant programs (cross-module const, enum, define) with probe leaves x environments; non-trivial = the program matches >= 1 peephole pattern class of JsSem and the minified output differs textually from the unminified print; distinct by (program, options)")
 }
 
 // designChecks: TLC on the model alone. The small-step machine of JsSemStep must be
